@@ -46,7 +46,7 @@ type State struct {
 }
 
 // number of bytes necessary to represent a bitfield of the given size.
-func toByteSize(BitSize uint32) uint8 {
+func toByteSize(BitSize uint32) uint32 {
 	if BitSize == 0 {
 		return 0
 	}
@@ -54,7 +54,7 @@ func toByteSize(BitSize uint32) uint8 {
 	if n > 0 {
 		BitSize += (8 - n)
 	}
-	return uint8(BitSize / 8)
+	return BitSize / 8
 }
 
 // Invalidate marks a state as invalid.
